@@ -404,4 +404,8 @@ def run(db, chk):
     n = 0
     for uname in (sorted(db.units) if chk.tier == "thorough" else ["raster_queen"]):
         n += traversal_rule(db, chk, uname, 4 if chk.tier == "thorough" else 3)
+    chk.absorb(db, "C05", {"C05-M1"}, "C06-F2", "the multi-direction router registers, for every receiver entry, "
+               "exactly one donor entry (inverse with multiplicity; shared with C05-M1)", min_instances=100)
+    chk.absorb(db, "C04", {"C04-S2"}, "C06-F2b", "the single-direction router (both bodies) registers the node "
+               "exactly once as donor of its receiver (shared with C04-S2)", min_instances=100)
     chk.count_scenarios(n, True)
